@@ -93,7 +93,8 @@ def run(ck, P):
               path=rules.fmt_path(f, bad[1]) if bad else None)
 
     ck.rule("C12.4-LIST-ITR-STEP", "R-RESET-ALL: every path through m_list_itr_next on which the iterator still designates an element resets the "
-            "insert/remove compensation (itr->diff = 0): the compensation is per step and must not leak into the next one", floor=1)
+            "insert/remove compensation (itr->diff = 0): the compensation is per step and must not leak into the next one; the cursor advances "
+            "exactly when diff >= 0", floor=2)
     ln = P.fn("m_list_itr_next", L)
     ck.analysed(ln)
     bad = None
@@ -110,6 +111,47 @@ def run(ck, P):
     ck.ob("C12.4-LIST-ITR-STEP", ln.site("diff reset"), bad is None and n > 0, "%d path(s) with a current element all reset diff" % n if bad is None else
           "a step of the list iterator leaves diff unchanged: a +1 from an earlier insert later cancels the -1 of a remove and the element after "
           "the removed one is skipped", path=rules.fmt_path(ln, bad) if bad else None)
+
+    # ... and the step moves on exactly when no removal is outstanding: diff is -1 after a removal through the iterator (the cursor already
+    # designates the successor), 0 after nothing, positive after insertions before the cursor (the cursor still designates the element the
+    # caller has seen).  Decided per path for the representative values of diff.
+    import re as _re
+    OPS = {"==": lambda a_, b_: a_ == b_, "!=": lambda a_, b_: a_ != b_, "<": lambda a_, b_: a_ < b_, "<=": lambda a_, b_: a_ <= b_,
+           ">": lambda a_, b_: a_ > b_, ">=": lambda a_, b_: a_ >= b_}
+
+    def _consistent(asm, v):
+        for atom, pol in asm.items():
+            if pol is None or "i->diff" not in atom:
+                continue
+            m_ = _re.match(r"^\(i->diff (==|!=|<=|>=|<|>) (-?\d+)\)$", atom)
+            if m_:
+                if OPS[m_.group(1)](v, int(m_.group(2))) != pol:
+                    return False
+            elif atom == "i->diff":
+                if (v != 0) != pol:
+                    return False
+        return True
+    nstep = 0
+    bad_step = None
+    for path in ln.paths():
+        a = rules.path_assumes(path)
+        if a.get("*i->elem") is not True:
+            continue
+        evs = list(rules.path_events(ln, path))
+        adv = [e for e in evs if e.kind == "assign" and S(e.lhs) == "i->elem" and "->next" in S(e.rhs)]
+        for v in (-2, -1, 0, 1, 2):
+            if not _consistent(a, v):
+                continue
+            nstep += 1
+            if bool(adv) != (v >= 0) and bad_step is None:
+                bad_step = (path, v, bool(adv))
+    ck.ob("C12.4-LIST-ITR-STEP", ln.site("advance unless a removal is outstanding"), nstep >= 3 and bad_step is None,
+          "%d (path, diff) cases: the cursor moves to the next node exactly when diff >= 0" % nstep if bad_step is None else
+          "with diff == %d the step %s: %s" % (bad_step[1], "advances" if bad_step[2] else "does not advance",
+          "after an insertion before the cursor the next step stays on the element the caller has already seen (it is visited twice)" if bad_step[1] > 0 and not bad_step[2]
+          else "after a removal through the iterator the cursor already designates the successor, advancing skips it" if bad_step[1] < 0
+          else "an ordinary step does not move: the iteration never ends"),
+          path=rules.fmt_path(ln, bad_step[0]) if bad_step else None)
 
     # ------------------------------------------------------------------ 2. length and destructor pairing
     ck.rule("C12.2-LEN", "R-PAIR: per container, on every path a node allocation that succeeds pairs with len++ and a node free "
